@@ -222,6 +222,9 @@ func (b *BoxLayout) SetView(view View) {
 	for _, c := range b.cells {
 		c.view.SetView(view)
 	}
+	// a layout populated before it had a view has not computed its
+	// preferred size yet, and a parent layout is about to ask for it
+	b.layout()
 }
 
 // HandleEvent implements a tcell.EventHandler.  The only events
